@@ -341,6 +341,10 @@ class Circuit:
 
         """
         if mode_2 is None:
+            # Fixed-width numpy integers wrap around at the limit of their
+            # type, so find the next mode from the plain integer value
+            if isinstance(mode_1, np.integer):
+                mode_1 = int(mode_1)
             mode_2 = mode_1 + 1
         mode_1 = self._map_mode(mode_1)
         self._mode_in_range(mode_1)
